@@ -872,8 +872,11 @@ func populateVerificationMethod(context, didID, baseURI string,
 
 		if strings.HasPrefix(id, "#") {
 			id = resolveRelativeDIDURL(didID, baseURI, id)
-			split := strings.Split(id, "#")
-			controller = split[0]
+			if controller == "" {
+				// a relative id leaves an undeclared controller to the DID the id resolves against
+				controller = strings.Split(id, "#")[0]
+			}
+
 			isRelative = true
 		}
 
